@@ -573,6 +573,11 @@ func (g *qeGen) request() string {
 		if len(lines) == 2 {
 			lines = append(lines, "Stats: min latency")
 		}
+		if r.chance(1, 2) {
+			// counters under a contact's view: every node has to apply the restriction to its own part
+			lines = []string{"GET " + table, "Stats: state = 0", "Stats: state != 0", "Stats: max state", "AuthUser: " + vPick(r, qeContacts)}
+			g.count("shape:stats-authuser")
+		}
 		lines = append(lines, "OutputFormat: "+vPick(r, []string{"json", "wrapped_json"}))
 
 		return strings.Join(lines, "\n") + "\n\n"
